@@ -547,6 +547,98 @@ class RouteCanary(Sub):
         check_program(prog, rec, must_work=not known)
 
 
+class BatchMix(Sub):
+    """the gradient of one batch item must not depend on what else is in the batch: a program is differentiated (autograd.grad with a
+    random cotangent) on a batch of 2-3 rows that MIX point classes - the program's own point next to identity / tiny / generic /
+    large points - and every row's gradient is compared with the gradient of that row evaluated alone.  pypose chooses its
+    small-angle formulas in backward passes too; a guard evaluated once for the whole batch (all() / any()) is invisible when
+    every case differentiates a batch of one (seed C04f).  Differential oracle (pypose against itself), float64 rows agree to
+    rounding; the values themselves are judged by `programs` / `single_ops`."""
+    name = "batch_mix"
+    n = {"quick": 1200, "thorough": 40000}
+
+    def strategy(self, tier):
+        @st.composite
+        def s(draw):
+            case = draw(program(tier, single=draw(st.booleans())))
+            case["nodes"] = case["nodes"][:3]
+            glt, dtype = case["ltype"], case["dtype"]
+            cls2 = draw(st.sampled_from(("identity", "identity", "tiny", "generic", "large")))
+            if glt == "Sim3" and cls2 == "large":
+                cls2 = "generic"
+            if cls2 in ("identity", "tiny") and any(nd["op"] == "Jinvp" for nd in case["nodes"]):
+                cls2 = "generic"                     # Jinvp is not asserted at zero rotation (see program())
+            small = None if glt != "Sim3" else (not case.get("big"))
+            if glt == "RxSO3":
+                small = False if case.get("big") else None
+            case["cls2"] = cls2
+            case["inputs2"] = [draw(_val_strategy(i["kind"], glt, cls2, dtype, small=small)) for i in case["inputs"]]
+            case["order"] = draw(st.sampled_from(("own_first", "other_first", "sandwich")))
+            case["route"] = "grad"
+            return case
+        return s()
+
+    def valid(self, case):
+        glt = case["ltype"]
+        for i, v2 in zip(case["inputs"], case.get("inputs2", [])):
+            if i["kind"] == "G" and not (gen.valid_group(glt, i["val"], "float64") and gen.valid_group(glt, v2, "float64")):
+                return False
+        ts = _types(dict(case, nodes=[]))
+        try:
+            for nd in case["nodes"]:
+                if any(a >= len(ts) for a in nd["args"]) or tuple(ts[a] for a in nd["args"]) != tuple(OPS[nd["op"]][0]):
+                    return False
+                ts.append(OPS[nd["op"]][1])
+        except Exception:
+            return False
+        return len(case.get("inputs2", [])) == len(case["inputs"])
+
+    def oracle(self, case, rec):
+        glt, dtype = case["ltype"], case["dtype"]
+        other = dict(case, inputs=[dict(i, val=v2) for i, v2 in zip(case["inputs"], case["inputs2"])], cls=case["cls2"])
+        for c_ in (case, other):
+            ok, why = _inspect(c_)
+            if not ok:
+                rec.discard_case(why)
+        rows = {"own_first": (case, other), "other_first": (other, case), "sandwich": (other, case, other)}[case["order"]]
+        td = tu.TD[dtype]
+        batch = [np.stack([np.array(r["inputs"][k]["val"], dtype=np.float64) for r in rows], 0) for k in range(len(case["inputs"]))]
+        B = len(rows)
+        rs = np.random.RandomState(case["cseed"] + 5)
+        rec.label(glt, dtype, "mix:%s+%s" % (case["cls"], case["cls2"]), "rows%d" % B, *["op:" + nd["op"] for nd in case["nodes"]])
+        if case["cls"] != case["cls2"]:
+            rec.nt((glt, dtype, case["cls"], case["cls2"], tuple(nd["op"] for nd in case["nodes"]), case["sink"], case["order"]))
+
+        def grads(arrs, cot):
+            vals = make_inputs(case, td, batch=arrs, requires_grad=True)
+            out = evalprog(case, vals, td)
+            leaves = [v for v, i in zip(vals, case["inputs"]) if not i.get("const")]
+            g = torch.autograd.grad((out * torch.tensor(cot, dtype=td)).sum(), leaves, allow_unused=True)
+            return tu.npy(out), [None if x is None else tu.npy(x) for x in g]
+        with rec.sut("autograd.grad on a mixed batch"):
+            vals0 = make_inputs(case, td, batch=batch, requires_grad=False)
+            m = int(evalprog(case, vals0, td).shape[-1])
+            cot = rs.randn(B, m)
+            out_b, g_b = grads(batch, cot)
+            singles = [grads([a[r:r + 1] for a in batch], cot[r:r + 1]) for r in range(B)]
+        eps = tu.EPS[dtype]
+        for r in range(B):
+            out_r, g_r = singles[r]
+            rec.check(bool(np.allclose(out_b[r], out_r[0], rtol=0, atol=64 * eps * (1 + float(np.abs(out_r).max())), equal_nan=True)), "batch_mix:forward:" + glt,
+                      lambda: "forward value of row %d in a mixed batch differs from the value of the row alone by %.3g" % (r, float(np.abs(out_b[r] - out_r[0]).max())))
+            for k, (gb, gr) in enumerate(zip(g_b, g_r)):
+                if gb is None or gr is None:
+                    rec.check(gb is None and gr is None, "batch_mix:unused", "input %d unused in one evaluation only" % k)
+                    continue
+                scale = 1.0 + float(np.abs(gr).max()) if np.all(np.isfinite(gr)) else 1.0
+                err = float(np.abs(gb[r] - gr[0]).max()) if np.all(np.isfinite(gb[r])) and np.all(np.isfinite(gr)) else (0.0 if np.array_equal(np.isnan(gb[r]), np.isnan(gr[0])) else float("inf"))
+                tol = (256 * eps if dtype == "float64" else 64 * eps) * scale
+                rec.notes["batch_mix_" + dtype] = max(rec.notes.get("batch_mix_" + dtype, 0), err / tol)
+                rec.check(err <= tol, "batch_mix:grad:%s:%s" % (glt, "+".join(sorted(set(nd["op"] for nd in case["nodes"])))[:40]),
+                          lambda: "gradient w.r.t. input %d of row %d (%s point) in a batch mixed with %s point(s) differs from the gradient of the row alone by %.3g "
+                          "(tol %.3g); ops %s sink %s" % (k, r, rows[r]["cls"], "/".join(sorted(set(x["cls"] for x in rows))), err, tol, [nd["op"] for nd in case["nodes"]], case["sink"]))
+
+
 class Sim3Trunc(Sub):
     name = "sim3_trunc"
     n = {"quick": 800, "thorough": 20000}
@@ -600,7 +692,7 @@ class Sim3Trunc(Sub):
                       lambda: "sim3 %s backward: error %.3g exceeds |ad|^6/360 = %.3g at |ad| = %.3g" % (which, err, bound, na))
 
 
-SUBS = [Programs(), SingleOps(), RouteCanary(), Sim3Trunc()]
+SUBS = [Programs(), SingleOps(), RouteCanary(), BatchMix(), Sim3Trunc()]
 
 
 def selftest():
